@@ -24,6 +24,9 @@ type Config struct {
 	ZeroEOF    bool      `json:"zero_eof,omitempty"`
 	MaxHeader  uint64    `json:"max_header,omitempty"`
 	MaxSection uint64    `json:"max_section,omitempty"`
+	// EOFAtEnd: the caller's ReaderAt (storage kinds only) reports io.EOF together with a full read
+	// that ends at the end of the medium.
+	EOFAtEnd bool `json:"eof_at_end,omitempty"`
 	Roots      []BlkSpec `json:"roots"`
 }
 
@@ -124,6 +127,7 @@ func GenConfig(r *Rng, store string) Config {
 		k := Pick(r, []string{"raw", "cbor", "pb", "v0", "raw", "s512"})
 		c.Roots = append(c.Roots, BlkSpec{Kind: k, Seed: uint64(r.Intn(4)), Size: r.Range(0, 40)})
 	}
+	c.EOFAtEnd = r.Chance(1, 4)
 	return c
 }
 
@@ -144,10 +148,10 @@ type Trace struct {
 	Cfg    Config `json:"cfg"`
 	Ops    []Op   `json:"ops,omitempty"`
 	// engine-specific parts
-	Crash  *CrashSpec  `json:"crash,omitempty"`
-	Faults []FaultSpec `json:"faults,omitempty"`
-	Medium *MediumSpec `json:"medium,omitempty"`
-	Sched  *SchedSpec  `json:"sched,omitempty"`
+	Crash  *CrashSpec     `json:"crash,omitempty"`
+	Faults []FaultSpec    `json:"faults,omitempty"`
+	Medium *MediumSpec    `json:"medium,omitempty"`
+	Sched  *SchedSpec     `json:"sched,omitempty"`
 	Extra  map[string]any `json:"extra,omitempty"`
 	// filled when a violation is reported
 	Sig  string `json:"violation_signature,omitempty"`
